@@ -80,7 +80,9 @@ def _run_one(args):
             return out
         opts = dict(per_path_timeout=30.0, total_timeout=150.0, vc_timeout=10.0)
         opts.update(ob.opts)
-        res = E.explore(ob.harness, oid, stop_on_violation=not ob.collect_all, **opts)
+        has_known = any(k.get("status", "known") == "known" and k.get("obligation") == oid for k in load_known())
+        # with a listed known finding keep exploring, so that a different violation of the same obligation is still reported
+        res = E.explore(ob.harness, oid, stop_on_violation=not (ob.collect_all or has_known), **opts)
         if res.status == "violation" and ob.alternatives:
             # The oracle admits a family of behaviours (a fixed per-program relabelling of i.i.d. draws,
             # any activation set of measure p): each variant is a separate complete exploration.
@@ -170,19 +172,21 @@ def run_property(modname: str, tier: str, seed: int, jobs: int = 16, only: Optio
     os.makedirs(os.path.join(VERIF, "replays", pid), exist_ok=True)
     for r in results:
         if r["status"] == "violation":
-            cex = r.get("counterexample") or {}
-            k = next((k for k in known if k.get("status", "known") == "known"
-                      and k["obligation"] == r["id"]
-                      and (k.get("label") in (None, cex.get("label")))), None)
-            if k is not None:
-                known_hits.append((k, r))
-            else:
-                h = hashlib.sha256(json.dumps([r["id"], cex], sort_keys=True, default=str).encode()).hexdigest()[:12]
-                path = os.path.join(VERIF, "replays", pid, f"{h}.json")
-                json.dump({"property": pid, "module": modname, "obligation": r["id"], "tier": tier,
-                           "seed": seed, "counterexample": cex, "notes": r.get("notes", [])[-3:],
-                           "system_replay": r.get("system_replay")}, open(path, "w"), indent=1, default=str)
-                violations.append((r, path))
+            cexs = r.get("counterexamples") or [r.get("counterexample") or {}]
+            for cex in cexs:
+                k = next((k for k in known if k.get("status", "known") == "known"
+                          and k["obligation"] == r["id"]
+                          and (k.get("label") in (None, cex.get("label")))), None)
+                if k is not None:
+                    if not any(kk is k for kk, _ in known_hits):
+                        known_hits.append((k, r))
+                else:
+                    h = hashlib.sha256(json.dumps([r["id"], cex], sort_keys=True, default=str).encode()).hexdigest()[:12]
+                    path = os.path.join(VERIF, "replays", pid, f"{h}.json")
+                    json.dump({"property": pid, "module": modname, "obligation": r["id"], "tier": tier,
+                               "seed": seed, "counterexample": cex, "notes": r.get("notes", [])[-3:],
+                               "system_replay": r.get("system_replay")}, open(path, "w"), indent=1, default=str)
+                    violations.append((dict(r, counterexample=cex), path))
         elif r["status"] == "error":
             errors.append(r)
 
